@@ -202,4 +202,98 @@ theorem le_boundaryDown (input : Bytes) (a : Nat)
       · exact h
     · exact h
 
+/-- a byte that is not a line feed lies on the line whose index is the number of line feeds before it -/
+theorem splitLines_line_of_pos (c : Bytes) : ∀ (q : Nat) (b : UInt8), c[q]? = some b → (b == 10) = false →
+    ∃ l, (splitLines c)[countNL (c.take q)]? = some l ∧ b ∈ l := by
+  induction c with
+  | nil => intro q b h; simp at h
+  | cons x xs ih =>
+    intro q b h hb
+    cases q with
+    | zero =>
+      simp only [List.getElem?_cons_zero, Option.some.injEq] at h
+      subst h
+      simp only [List.take_zero, countNL, List.count_nil, splitLines, hb, Bool.false_eq_true, if_false]
+      cases hs : splitLines xs with
+      | nil => exact absurd hs (splitLines_ne_nil xs)
+      | cons l ls => exact ⟨x :: l, by simp, by simp⟩
+    | succ q =>
+      simp only [List.getElem?_cons_succ] at h
+      obtain ⟨l, hl, hm⟩ := ih q b h hb
+      simp only [List.take_succ_cons, countNL_cons, splitLines]
+      by_cases hx : (x == 10) = true
+      · simp only [hx, if_true]
+        refine ⟨l, ?_, hm⟩
+        rw [Nat.add_comm, List.getElem?_cons_succ]; exact hl
+      · simp only [hx, Bool.false_eq_true, if_false, Nat.zero_add]
+        cases hs : splitLines xs with
+        | nil => exact absurd hs (splitLines_ne_nil xs)
+        | cons l0 ls =>
+          rw [hs] at hl
+          cases hc : countNL (List.take q xs) with
+          | zero =>
+            rw [hc] at hl
+            simp only [List.getElem?_cons_zero, Option.some.injEq] at hl
+            subst hl
+            exact ⟨x :: l0, by simp, by simp [hm]⟩
+          | succ j =>
+            rw [hc] at hl
+            exact ⟨l, by simpa using hl, hm⟩
+
+/-- a non-blank line at index `j` yields the entry labelled `ctxLine + (i + j)` -/
+theorem entriesFrom_complete (ctxLine line : Nat) : ∀ (ls : List Bytes) (i j : Nat) (l : Bytes), ls[j]? = some l → blank l = false →
+    (⟨ctxLine + (i + j), trimEnd l, ctxLine + (i + j) == line⟩ : Entry) ∈ entriesFrom ctxLine line ls i := by
+  intro ls
+  induction ls with
+  | nil => intro i j l h; simp at h
+  | cons x xs ih =>
+    intro i j l h hb
+    cases j with
+    | zero =>
+      simp only [List.getElem?_cons_zero, Option.some.injEq] at h
+      subst h
+      simp [entriesFrom, hb]
+    | succ j =>
+      simp only [List.getElem?_cons_succ] at h
+      have := ih (i + 1) j l h hb
+      have e : i + 1 + j = i + (j + 1) := by omega
+      rw [e] at this
+      simp only [entriesFrom]
+      split
+      · exact this
+      · exact List.mem_cons_of_mem _ this
+
+theorem mem_takeWhile_true (f : UInt8 → Bool) : ∀ (l : Bytes) (x : UInt8), x ∈ l.takeWhile f → f x = true := by
+  intro l
+  induction l with
+  | nil => intro x h; simp at h
+  | cons b bs ih =>
+    intro x h
+    simp only [List.takeWhile_cons] at h
+    by_cases hb : f b = true
+    · simp only [hb, if_true, List.mem_cons] at h
+      rcases h with rfl | h
+      · exact hb
+      · exact ih x h
+    · simp [hb] at h
+
+/-- `trim_end` keeps everything up to a byte that is not white space -/
+theorem trimEnd_keeps (l : Bytes) (q : Nat) (b : UInt8) (h : l[q]? = some b) (hb : isWs b = false) :
+    ∃ m, q < m ∧ trimEnd l = l.take m := by
+  refine ⟨(trimEnd l).length, ?_, prefix_eq_take (trimEnd_prefix l)⟩
+  -- l = trimEnd l ++ w with w all white space; position q cannot lie in w
+  unfold trimEnd
+  have hsplit : l = (l.reverse.dropWhile isWs).reverse ++ (l.reverse.takeWhile isWs).reverse := by
+    rw [← List.reverse_append, List.takeWhile_append_dropWhile, List.reverse_reverse]
+  by_cases hq : q < (l.reverse.dropWhile isWs).reverse.length
+  · exact hq
+  · exfalso
+    have hq' : (l.reverse.dropWhile isWs).reverse.length ≤ q := by omega
+    rw [hsplit, List.getElem?_append_right hq'] at h
+    have hmem : b ∈ (l.reverse.takeWhile isWs).reverse := List.mem_of_getElem? h
+    rw [List.mem_reverse] at hmem
+    have := mem_takeWhile_true isWs _ _ hmem
+    rw [hb] at this
+    cases this
+
 end Proofs.Context
